@@ -19,6 +19,11 @@
       [facts_of ops]     the facts after the history [ops] from [s_init].
     The histories are lists of [Script.op] run by [Script.run_ops] / [Script.step], the same step
     function the correspondence check executes; no bound on their length. *)
+(** Added after review 1 (section "the two server-side facts, on the wire" at the end; proofs/C10_wire.v):
+    [refusal_seen] and [resp_close] are related to descriptions of the bytes in the C05_spec grammar
+    ([c10_refusal_wire], [c10_n100_wire], [c10_scl_wire]) and the two classes in which the facts deviate
+    from the wording of the property are named ([c10_100_with_fields_refuses],
+    [c10_partial_redirect_closes], with the reviewer's witnesses as Examples). *)
 From Coq Require Import List.
 From Hoot Require Import Base Chunk Body Httparse Parser Url Request Call Flow Script.
 From Hoot.proofs Require Import Reasons C10_proofs C10_hist.
@@ -284,6 +289,163 @@ Example c10_nonvacuous_close_delimited :
   end = true /\ same_exchange (skipn 8 demo_refused) = true.
 Proof. vm_compute. split; reflexivity. Qed.
 
+(* ------------------------------------------------------------------ the two server-side facts, on the wire *)
+(** [refusal_seen] and [resp_close] above are computed from what the parser returned.  The theorems
+    below relate them to descriptions of the BYTES written with the grammar of proofs/C05_spec.v
+    ([resp_head], [render_status_line], [render_field], [render_response_head], [wf_resp_head]) and
+    the words of the property (definitions in proofs/C10_wire.v):
+      [refusal_wire w]         "a non-100 response arrived": [w] begins with a complete status line
+                               whose status is not 100, followed by the empty line (a head without
+                               fields) or by at least one complete field line;
+      [hundred_with_fields w]  status 100 followed by a complete field line;
+      [conn_close fd]          the field line [fd] has the name Connection (any letter case) and, after
+                               removal of the optional white space, exactly the value "close".
+    Two classes in which the model deviates from the wording are made explicit:
+      (a) a "100 Continue" WITH header fields counts as a refusal ([c10_100_with_fields_refuses]) --
+          outside the property (the quantifier's server behaviours have a bare interim 100);
+      (b) in the F10 class (a 3xx head with Location returned before it is complete) the response
+          handed back carries a synthetic "connection: close" that is not on the wire, and scl is
+          true there: the verdict is must-close ([c10_partial_redirect_closes]), which is what the
+          property's last sentence asks for; [c10_scl_wire] is therefore stated for complete heads. *)
+From Hoot.proofs Require Import C05_spec C20_proofs C10_wire.
+
+(** Bytes of the shape the property describes are seen as a refusal (any continuation). *)
+Theorem c10_refusal_wire_seen : forall w, refusal_wire w -> refusal_seen w = true.
+Proof. exact refusal_wire_seen. Qed.
+
+(** Every window of a stream that begins with a well-formed head: a refusal is seen exactly from the
+    decision point on (the status line and the complete line after it), unless the head is a bare 100. *)
+Theorem c10_refusal_exact : forall h rest n,
+  wf_resp_head h ->
+  refusal_seen (take n (render_response_head h ++ rest)) =
+    (C11_proofs.decision_point h <=? n) && negb ((rh_status h =? 100) && is_nil (rh_fields h)).
+Proof. exact refusal_seen_exact. Qed.
+
+(** The equivalence on well-formed input. *)
+Theorem c10_refusal_wire : forall h rest n,
+  wf_resp_head h ->
+  let w := take n (render_response_head h ++ rest) in
+  refusal_seen w = true <-> refusal_wire w \/ hundred_with_fields w.
+Proof. exact refusal_seen_wire. Qed.
+
+Theorem c10_refusal_wire_non100 : forall h rest n,
+  wf_resp_head h -> rh_status h <> 100 ->
+  (refusal_seen (take n (render_response_head h ++ rest)) = true <-> C11_proofs.decision_point h <= n).
+Proof. exact refusal_seen_wire_non100. Qed.
+
+(** History level: if the fact n100 holds, some [try_read_100] of the history (tracked or raw, executed
+    in Await100) was shown a window accepted by [refusal_seen] -- which, when that window is a window
+    of a well-formed head, is a non-100 response or a 100 with fields ([c10_refusal_wire]). *)
+Theorem c10_n100_wire : forall ops,
+  n100 (facts_of ops) = true ->
+  exists ops1 o ops2 w,
+    ops = ops1 ++ o :: ops2 /\ shows_100 (run_ops s_init ops1) o w /\ refusal_seen w = true.
+Proof. exact n100_shown. Qed.
+
+(** Deviation (a). *)
+Theorem c10_100_with_fields_refuses : forall w, hundred_with_fields w -> refusal_seen w = true.
+Proof. exact hundred_with_fields_seen. Qed.
+
+(** The reviewer's witness, by running the model: POST with Expect, the server answers
+    "100 Continue" with a field x: y; the fact n100 and the reason "got non-100 response before
+    sending body" result although the response is a 100. *)
+Example c10_100_with_fields_witness :
+  hundred_with_fields w_100_fields /\
+  refusal_seen w_100_fields = true /\
+  facts_of demo_100_fields = {| h10 := false; ccl := false; n100 := true; scl := false; cdl := false |} /\
+  final_view demo_100_fields = Some (TCleanup, [Not100Continue], true, Some (explain Not100Continue)).
+Proof.
+  split.
+  { exists h_100_fields, fd_x_y, [], []. split; [exact wf_h_100_fields|].
+    split; [reflexivity|]. split; [reflexivity|]. vm_compute. reflexivity. }
+  vm_compute. repeat split; reflexivity.
+Qed.
+
+(** The response of a well-formed head carries Connection: close iff one of its field lines is a
+    Connection field with the value close. *)
+Theorem c10_resp_close_wire : forall h,
+  resp_close (response_of h) = true <-> exists fd, In fd (rh_fields h) /\ conn_close fd.
+Proof. exact resp_close_wire. Qed.
+
+(** scl on the wire: [try_response] shown a complete well-formed head (at most 128 fields; anything
+    may follow) and returning a response returns that head's response, consumes exactly the head,
+    and the response counts for scl iff the head has such a field line. *)
+Theorem c10_scl_wire : forall f h rest f' used rsp,
+  wf_resp_head h -> (List.length (rh_fields h) <= 128)%nat ->
+  recv_try_response f (render_response_head h ++ rest) = Ok (f', used, Some rsp) ->
+  rsp = response_of h /\ used = len (render_response_head h) /\
+  (resp_close rsp = true <-> exists fd, In fd (rh_fields h) /\ conn_close fd).
+Proof. exact scl_wire. Qed.
+
+(** Deviation (b), the F10 class: the full parser has not seen a complete head, [try_response] returns
+    a response all the same (a 3xx with Location): it carries Connection: close, the reason is
+    recorded and the flow is must-close. *)
+Theorem c10_partial_redirect_closes : forall f w f' used rsp,
+  NoDup (i_reasons f) ->
+  recv_try_response f w = Ok (f', used, Some rsp) ->
+  try_parse_response (N.to_nat MAX_RESPONSE_HEADERS) w = Ok None ->
+  resp_close rsp = true /\ In ServerConnectionClose (i_reasons f') /\ must_close f' = true.
+Proof. exact partial_redirect_closes. Qed.
+
+(** ... in a history: scl holds afterwards and whatever flow the script then holds is must-close. *)
+Theorem c10_partial_redirect_history : forall ops f w f' used rsp o,
+  s_obj (run_ops s_init ops) = ObFlow TRecvResponse f ->
+  (o = ORawTryResponse w \/ (o = OTryResponse /\ w = window (run_ops s_init ops))) ->
+  recv_try_response f w = Ok (f', used, Some rsp) ->
+  try_parse_response (N.to_nat MAX_RESPONSE_HEADERS) w = Ok None ->
+  scl (facts_of (ops ++ [o])) = true /\
+  forall t2 f2, s_obj (run_ops s_init (ops ++ [o])) = ObFlow t2 f2 -> must_close f2 = true.
+Proof. exact partial_redirect_history. Qed.
+
+(** The reviewer's witness, by running the model: GET; the window holds "302 Found", a Location field
+    and the beginning of another field name -- no Connection field anywhere, the full parser says
+    "incomplete"; scl is true and the reason is "server sent Connection: close". *)
+Example c10_partial_redirect_witness :
+  try_parse_response (N.to_nat MAX_RESPONSE_HEADERS) w_partial_302 = Ok None /\
+  match try_parse_partial_response (N.to_nat MAX_RESPONSE_HEADERS) w_partial_302 with
+  | Ok (Some r) => resp_close r = false /\ hm_iter (rs_headers r) = [(s2b "location", s2b "/y")]
+  | _ => False
+  end /\
+  facts_of demo_partial_302 = {| h10 := false; ccl := false; n100 := false; scl := true; cdl := false |} /\
+  final_view demo_partial_302 =
+    Some (TRedirect, [ServerConnectionClose], true, Some (explain ServerConnectionClose)).
+Proof. vm_compute. repeat split; reflexivity. Qed.
+
+(** Non-vacuity of the wire theorems.  The refusing head of [demo_refused] is the rendering of a
+    well-formed [resp_head] with one field line (second alternative of [refusal_wire]); a bare 403 is
+    the first alternative; both are seen as refusals at the decision point and not before. *)
+Example c10_refusal_wire_nonvacuous :
+  wf_resp_head h_403_close /\ render_response_head h_403_close = demo_refused_head /\
+  refusal_wire demo_refused_head /\
+  refusal_wire (render_response_head h_403_bare ++ s2b "more") /\
+  C11_proofs.decision_point h_403_close = 43 /\
+  refusal_seen (take 42 demo_refused_head) = false /\ refusal_seen (take 43 demo_refused_head) = true.
+Proof.
+  split; [exact wf_h_403_close|]. split; [exact render_h_403_close|].
+  split.
+  { exists h_403_close. split; [exact wf_h_403_close|]. split; [discriminate|]. right.
+    exists fd_conn_close, [], CRLF. split; [reflexivity|]. vm_compute. reflexivity. }
+  split.
+  { exists h_403_bare. split; [exact wf_h_403_bare|]. split; [discriminate|]. left.
+    split; [reflexivity|]. eexists. reflexivity. }
+  vm_compute. repeat split; reflexivity.
+Qed.
+
+(** [c10_scl_wire] on a state reached by the model: the first six operations of [demo_refused] lead
+    to RecvResponse; shown the 403 head with "Connection: close" the flow returns its response, and
+    the field line is there on the wire. *)
+Example c10_scl_wire_nonvacuous :
+  match s_obj (run_ops s_init (firstn 6 demo_refused)) with
+  | ObFlow TRecvResponse f =>
+      match recv_try_response f (render_response_head h_403_close ++ []) with
+      | Ok (_, used, Some rsp) => used = 45 /\ resp_close rsp = true
+      | _ => False
+      end
+  | _ => False
+  end /\
+  In fd_conn_close (rh_fields h_403_close) /\ conn_close fd_conn_close.
+Proof. vm_compute. repeat split; auto. Qed.
+
 Print Assumptions c10_new.
 Print Assumptions c10_prepare_header.
 Print Assumptions c10_send_body_despite_method.
@@ -317,3 +479,17 @@ Print Assumptions c10_nonvacuous_refused.
 Print Assumptions c10_nonvacuous_keepalive.
 Print Assumptions c10_nonvacuous_redirect.
 Print Assumptions c10_nonvacuous_close_delimited.
+Print Assumptions c10_refusal_wire_seen.
+Print Assumptions c10_refusal_exact.
+Print Assumptions c10_refusal_wire.
+Print Assumptions c10_refusal_wire_non100.
+Print Assumptions c10_n100_wire.
+Print Assumptions c10_100_with_fields_refuses.
+Print Assumptions c10_100_with_fields_witness.
+Print Assumptions c10_resp_close_wire.
+Print Assumptions c10_scl_wire.
+Print Assumptions c10_partial_redirect_closes.
+Print Assumptions c10_partial_redirect_history.
+Print Assumptions c10_partial_redirect_witness.
+Print Assumptions c10_refusal_wire_nonvacuous.
+Print Assumptions c10_scl_wire_nonvacuous.
